@@ -249,7 +249,7 @@ fn subjects(ctx: &Ctx) -> Vec<Subject> {
         v.push(Subject { name: name.into(), file: adv::canned(name), init: None });
     }
     v.push(Subject { name: "minimal_fragment.m4s".into(), file: adv::canned("minimal_fragment.m4s"), init: Some(adv::canned("minimal_init.mp4")) });
-    let n = ctx.pick(3u32, 4u32);
+    let n = 4u32;
     for i in 0..n {
         v.push(Subject { name: format!("sink{}", i), file: build(&adv::kitchen_sink(i)).bytes, init: None });
     }
@@ -269,8 +269,8 @@ fn histories(ctx: &Ctx) -> Vec<MuxCase> {
     seed[..8].copy_from_slice(&ctx.seed.to_le_bytes());
     seed[8] = 0x10;
     let mut runner = TestRunner::new_with_rng(Config::default(), TestRng::from_seed(RngAlgorithm::ChaCha, &seed));
-    let n = ctx.pick(14usize, 80usize);
-    let maxops = ctx.pick(14usize, 60usize);
+    let n = ctx.pick(160usize, 600usize);
+    let maxops = ctx.pick(24usize, 60usize);
     let strat = mux::mux_history(3, maxops, 0.0);
     (0..n).map(|_| crate::gen::draw(&strat, &mut runner)).collect()
 }
